@@ -413,6 +413,20 @@ impl<'a> VisitMut for LogDbgPass<'a> {
             if matches!(name.as_str(), "unreachable" | "panic" | "todo" | "unimplemented") {
                 self.log.push(format!("R-DBG {}! (expr)", name));
                 *e = parse_quote! { shim_unreached() };
+            } else if name == "format" {
+                // R-FMT: `format!(LIT, a, b)` (positional arguments only) is the call `shim_format_N(LIT, a, b)` of a shim
+                // the unit declares (what the formatted string is = that shim's assumed contract)
+                let args: Option<syn::punctuated::Punctuated<Expr, syn::Token![,]>> =
+                    m.mac.parse_body_with(syn::punctuated::Punctuated::parse_terminated).ok();
+                match args {
+                    Some(args) if !args.is_empty() && matches!(args.first(), Some(Expr::Lit(_))) => {
+                        let f = quote::format_ident!("shim_format_{}", args.len() - 1);
+                        let a: Vec<&Expr> = args.iter().collect();
+                        self.log.push(format!("R-FMT format!(..) with {} argument(s) spelled as a shim call", args.len() - 1));
+                        *e = parse_quote! { #f(#(#a),*) };
+                    }
+                    _ => die("unsupported construct: format! with non-positional arguments"),
+                }
             }
         }
         visit_mut::visit_expr_mut(self, e);
